@@ -74,7 +74,7 @@ def run(tier, seed, build):
             except (ValueError, KeyError, ZeroDivisionError, TypeError):
                 den = None
             fixed = None
-            if den is not None and rng.random() < 0.5:
+            if den is not None and rng.random() < 0.5 and not ladder:      # (the ladder must compile: no fixed file, whose entries may be wrong on purpose)
                 ents = [e for e in c12.gen_fixed(rng, den) if "_Anon" not in e[1]]
                 open(os.path.join(root, "fix.fixed"), "w").write(c12.fixed_text(rng, ents)); fixed = "fix.fixed"; dist["with_fixed"] += 1
             if "[dummy]" in "".join(target["files"].values()): dist["with_dummy_strand"] += 1
